@@ -293,7 +293,7 @@ func (g *grpcClient) NewConn(
 	} else {
 		conn.readTrailers = func(_ *grpcUnmarshaler, call *duplexHTTPCall) http.Header {
 			// To access HTTP trailers, we need to read the body to EOF.
-			if ended, _ := discardToEnd(call); !ended {
+			if ended, err := discardToEnd(call); err == nil && !ended {
 				// We gave up before the end of the body. The transport may or may
 				// not have come across the trailers by now, depending on how it
 				// cuts the body into reads: don't let the outcome depend on that.
